@@ -81,7 +81,8 @@ class eft_priest_2sum(Contract):
         a = fpy_operand(ma, ea)
         b = fpy_operand(mb, eb)
         s, t = fpy_val(result)
-        return {'exact': s + t == a + b}
+        # under round-to-nearest the faithful first result is the rounded sum itself (the fall-back (a, b) is never taken)
+        return {'s_rounded_sum': s == fpy_rnd(ctx, a + b), 'exact': s + t == a + b}
 
     def raises(ma, ea, mb, eb, p, ctx):
         return {}
@@ -108,6 +109,11 @@ class eft_veltkamp_split(Contract):
             'exact': hi + lo == x,
             # the low part is at most half a unit of the (p - s)-digit high part: |lo| * 2^(p-s) <= |hi| (hi != 0)
             'lo_small': abs(lo) * pow2(p - s) <= abs(hi) * 1 or x == 0,
+            # Veltkamp: the high part fits p - s digits, the low part s digits
+            'hi_fits': hi == fpy_rne(hi, p - s),
+            'lo_fits': lo == fpy_rne(lo, s),
+            # ... and the high part is a nearest (p - s)-digit number to x (any tie-breaking)
+            'hi_nearest': abs(hi - x) == abs(fpy_rne(x, p - s) - x),
         }
 
     def raises(mx, ex, s, p, ctx):
